@@ -369,7 +369,8 @@ def refine(ctx, rec, oracles=('step_update', 'step_stats', 'step_momentum',
           off = b - np.diag(np.diag(b))
           tol += float(np.max(np.abs(off))) / 32767.0 * 0.51 + \
               float(np.max(np.abs(ms['stats'][j]))) / 32767.0 * 0.51
-        _cmp(ctx, 'step_stats', mk, t, i, a, b, tol, f'statistics[{j}]')
+        _cmp(ctx, 'step_stats' + ('_q' if quant2 else ''), mk, t, i, a, b, tol,
+             f'statistics[{j}]')
     # graft accumulator
     if 'step_graft_acc' in oracles and ns['diag'] is not None and \
         np.ndim(r['diag']) > 0:
@@ -396,8 +397,10 @@ def refine(ctx, rec, oracles=('step_update', 'step_stats', 'step_momentum',
       if quant_mom and len(leaf['shape']) > 1:
         tm += 0.51 * float(np.max(np.abs(r['mom']))) / 127.0
         td += 0.51 * float(np.max(np.abs(r['dmom']))) / 127.0
-      _cmp(ctx, 'step_momentum', mk, t, i, ns['mom'], r['mom'], tm, 'momentum')
-      _cmp(ctx, 'step_momentum', mk, t, i, ns['dmom'], r['dmom'], td,
+      qn = '_q' if (quant_mom and len(leaf['shape']) > 1) else ''
+      _cmp(ctx, 'step_momentum' + qn, mk, t, i, ns['mom'], r['mom'], tm,
+           'momentum')
+      _cmp(ctx, 'step_momentum' + qn, mk, t, i, ns['dmom'], r['dmom'], td,
            'diagonal_momentum')
     if 'step_update' in oracles:
       lr = abs(ref.lr_value(w.lr_spec, t)) if cfg.get(
@@ -456,3 +459,118 @@ def warmup(ctx, rec):
       ctx.ev('warmup')
       if abs(t - S) <= 1:
         ctx.probe('warmup_boundary_discriminated')
+
+
+# ------------------------------------------------------------- C05 grafting
+def graft(ctx, rec):
+  """beta1 = 0 and no weight decay: the update is the pre-momentum update.
+  From the start step on: norm of the graft step, direction of the
+  preconditioned gradient; before it / for skipped leaves: the graft step."""
+  w, view = rec['world'], rec['view']
+  cfg, t = w.cfg, rec['t']
+  prev, new = rec['prev'], rec['new']
+  mk = _modekey(rec)
+  if cfg.get('beta1', 0.9) != 0.0 or cfg.get('weight_decay', 0.0) != 0.0:
+    return
+  S = cfg.get('start_preconditioning_step', 5)
+  gt = cfg.get('graft_type', 1)
+  lr = ref.lr_value(w.lr_spec, t)
+  dec = cfg.get('decoupled_learning_rate', True)
+  free = ctx.__dict__.setdefault('_graft_free', {})
+  for i, leaf in enumerate(view.layout['leaves']):
+    g = np.asarray(rec['grads'][i], np.float64)
+    if i in rec['poisoned']:
+      for o in ('graft_norm', 'graft_dir', 'warmup_graft'):
+        ctx.ev(o, 'muted')
+      free.pop(i, None)
+      continue
+    ms = view.model_state(prev, i)
+    gamma, _ = ref.graft_step(cfg, g, ms['diag'] if ms['diag'] is not None
+                              else 0.0)
+    # free-running accumulator from the gradient history (loose tolerance):
+    # catches an accumulator that is returned but not threaded
+    if gt in (2, 3, 4, 6) and rec['opkind'] == 'STEP' and not rec.get('rebase'):
+      acc = free.get(i)
+      if acc is not None and ms['diag'] is not None and np.ndim(ms['diag']):
+        d = float(np.max(np.abs(acc - ms['diag'])))
+        sc = float(np.max(np.abs(acc))) + 1e-300
+        ok = d <= 1e-3 * sc
+        ctx.ev('graft_acc_history', 'ok' if ok else 'violation')
+        if not ok:
+          ctx.violate('graft_acc_history', mk, 'accumulator_not_threaded',
+                      tick=t, leaf=i, diff=d, scale=sc)
+      _, acc_new = ref.graft_step(cfg, g, acc if acc is not None else (
+          ms['diag'] if ms['diag'] is not None and np.ndim(ms['diag'])
+          else np.zeros_like(g)))
+      free[i] = acc_new
+    else:
+      free.pop(i, None)
+    eff = gamma * (lr if not dec else 1.0)      # what enters the norm
+    scale_out = lr if dec else 1.0              # applied after momentum
+    u = np.asarray(rec['updates'][i], np.float64)
+    if u.size == 0:
+      continue
+    ng = float(np.linalg.norm(eff))
+    active = t >= S and not leaf['skip']
+    if not active:
+      want = -scale_out * eff
+      tol = C * U32 * (float(np.max(np.abs(want))) + 1e-300)
+      ok = float(np.max(np.abs(u - want))) <= tol
+      ctx.ev('warmup_graft', 'ok' if ok else 'violation')
+      if not ok:
+        ctx.violate('warmup_graft', mk,
+                    'skipped_leaf' if leaf['skip'] else 'before_start_step',
+                    tick=t, leaf=i, diff=float(np.max(np.abs(u - want))),
+                    tol=tol)
+      continue
+    rts = view.roots(prev if view.sharded else new, i)
+    pg = ref.preconditioned(cfg, leaf, g, rts)
+    npg = float(np.linalg.norm(pg))
+    nu = float(np.linalg.norm(u))
+    if not np.isfinite(npg) or not np.isfinite(nu):
+      ctx.ev('graft_norm', 'vacuous')
+      continue
+    if gt == 0:
+      # no grafting: the step is the preconditioned gradient itself
+      want = -scale_out * pg
+      amp = _amp(cfg, leaf, g, rts)
+      tol = abs(scale_out) * (amp + C * U32 * float(np.max(np.abs(pg))) + 1e-300)
+      if tol > 0.05 * abs(scale_out) * (float(np.max(np.abs(pg))) + 1e-300):
+        ctx.ev('graft_dir', 'vacuous')
+        continue
+      ok = float(np.max(np.abs(u - want))) <= tol
+      ctx.ev('graft_dir', 'ok' if ok else 'violation')
+      if not ok:
+        ctx.violate('graft_dir', mk, 'graft_none_not_preconditioned_grad',
+                    tick=t, leaf=i)
+      continue
+    amp = _amp(cfg, leaf, g, rts)
+    if npg <= 10 * amp or npg < 1e-20:
+      # preconditioned gradient is (numerically) zero: update must be ~0 or
+      # carry the graft norm; direction undefined
+      ctx.ev('graft_norm', 'vacuous')
+      ctx.ev('graft_dir', 'vacuous')
+      if npg == 0.0 and nu != 0.0:
+        ctx.violate('graft_norm', mk, 'nonzero_update_for_zero_direction',
+                    tick=t, leaf=i)
+      continue
+    want_norm = abs(scale_out) * ng * (npg / (npg + ref.EPS))
+    reln = 1e-5 + 4 * amp / npg
+    ok = abs(nu - want_norm) <= reln * max(want_norm, 1e-300) + 1e-38
+    ctx.ev('graft_norm', 'ok' if ok else 'violation',
+           abs(nu - want_norm) / (reln * max(want_norm, 1e-300) + 1e-38))
+    if not ok:
+      ctx.violate('graft_norm', mk, 'norm_not_transplanted', tick=t, leaf=i,
+                  got=nu, want=want_norm, graft=gt)
+    if nu > 0 and want_norm > 0:
+      dirn = float(np.linalg.norm(u / nu + np.sign(scale_out) * pg / npg))
+      told = 1e-5 + 4 * amp / npg
+      if told > 0.05:
+        ctx.ev('graft_dir', 'vacuous')
+      else:
+        ok = dirn <= told
+        ctx.ev('graft_dir', 'ok' if ok else 'violation', dirn / told)
+        if not ok:
+          ctx.violate('graft_dir', mk, 'direction_not_preconditioned_grad',
+                      tick=t, leaf=i, angle=dirn, tol=told)
+  ctx.state('graft', mk, gt, int(t >= S), int(dec), rec['opkind'])
